@@ -78,7 +78,8 @@ def sh(cmd, cwd=None, env=None, timeout=None):
     return p.returncode, p.stdout
 
 def main():
-    ids = sys.argv[1:]
+    ids = [a for a in sys.argv[1:] if not a.startswith("--")]
+    suite_only = "--suite-only" in sys.argv
     if os.path.isdir(WT):
         sh(["git", "-C", "/repo", "worktree", "remove", "--force", WT])
     rc, out = sh(["git", "-C", "/repo", "worktree", "add", "--detach", WT, "HEAD"])
@@ -103,7 +104,7 @@ def main():
             real = [f for f in fails if "TestConcurrent" not in f]
             suite = "suite-green" if (src == 0 or (fails and not real)) else "suite-RED(%s)" % ",".join(sorted({f.split()[2].split("/")[0] for f in real}))[:40]
             res = {}
-            for pid in m["props"]:
+            for pid in ([] if suite_only else m["props"]):
                 env = dict(os.environ, VF_REPO=WT, VF_EVIDENCE_DIR="/dev/shm/mut-evidence", VF_REPLAY_DIR="/dev/shm/mut-replays")
                 t0 = time.time()
                 rc, out = sh(["python3", "/verif/verif.py", "check", pid, "--tier", "quick"], cwd="/verif", env=env, timeout=3600)
